@@ -45,8 +45,14 @@ for _a in range(len(MANY)):
         if _a != _b:
             SCENARIOS[f"warm12:{_a}:{_b}"] = {"product": "many", "warm": True, "threads": [("t", harness.group_name(*MANY[_a]), [0, 3]), ("t", harness.group_name(*MANY[_b]), [2, 5])]}
 
+# a filesystem whose open() returns the ONE stored file object, rewound (fsspec's memory:// behaves like this): the handle is
+# shared between all loads of a file, so everything between open and the last read has to be protected
+for _name in ("same-var-overlap", "same-var-disjoint", "pickled-copy", "different-vars", "same-var-single-lines", "three-threads"):
+    SCENARIOS[f"shared-handle:{_name}"] = {"product": "shared", "threads": SCENARIOS[_name]}
+
 _ctx = {}
 _many = {}
+_shared = {}
 
 
 def install_shims():
@@ -106,6 +112,20 @@ def setup_many():
     return _many
 
 
+def setup_shared():
+    if _shared:
+        return _shared
+    c = setup()
+    images = [synth.image_spec("HH", None, 5, 4, "IU2"), synth.image_spec("HV", None, 5, 4, "IU2")]
+    files, _ = synth.build(synth.product_spec("1.5", images=images))
+    prod = harness.Product(files, "mcfs-shared")
+    tree = prod.open(use_cache=False, records_per_chunk=2)
+    ref = {n: np.asarray(tree[f"imagery/{n}/data"].values).copy() for n in ("HH", "HV")}
+    _shared.update({"prod": prod, "orig": tree, "blob": pickle.dumps(tree), "ref": ref, "prefix": c["prefix"], "names": ["HH", "HV"]})
+    _shared["libstate"] = libstate.Snapshot()
+    return _shared
+
+
 def rows_of(sel):
     return sel if isinstance(sel, int) else slice(sel[0], sel[1])
 
@@ -117,7 +137,7 @@ def label(ev):
 def scenario(name, lines):
     sc = SCENARIOS[name]
     if isinstance(sc, dict):
-        c, threads, warm = setup_many(), sc["threads"], sc.get("warm", False)
+        c, threads, warm = (setup_many() if sc["product"] == "many" else setup_shared()), sc["threads"], sc.get("warm", False)
     else:
         c, threads, warm = setup(), sc, False
     tracer = sched.line_tracer(c["prefix"]) if lines else None
@@ -248,6 +268,10 @@ def free_running(rounds=200):
 def plan(tier):
     jobs = []
     for name, threads in SCENARIOS.items():
+        if isinstance(threads, dict) and threads["product"] == "shared":
+            for b in (0, 1, 2):
+                jobs.append({"scenario": name, "bound": b, "lines": False})
+            continue
         if isinstance(threads, dict):
             jobs.append({"scenario": name, "bound": 1 if tier == "quick" else 2, "lines": False})
             continue
@@ -264,7 +288,7 @@ def plan(tier):
 def run(res, tier, seed):
     res.rule = (
         "scenarios {same variable overlapping/disjoint groups, single-line (integer) selections, different variables, original+pickled copy (same/other variable),"
-        " three threads, three threads with copies; every ordered pair of the 12 images of a ScanSAR product after each image was read once} x preemption bound 0..3 (2 threads) / 0..2 (3 threads) at filesystem+lock yield"
+        " three threads, three threads with copies; six scenarios on a filesystem whose open() returns one shared, rewound file object per path (like memory://); every ordered pair of the 12 images of a ScanSAR product after each image was read once} x preemption bound 0..3 (2 threads) / 0..2 (3 threads) at filesystem+lock yield"
         " points; line-granular yield points inside ceos_alos2 at bound 1 (quick) / 2 (thorough). states = distinct event orders"
         " observed, transitions = scheduling decisions executed, traces = complete schedules executed on the real threads; the"
         " first schedules of every job and every failing schedule are replayed and must reproduce identical events."
